@@ -14,6 +14,9 @@
 //!   (race <n> <rounds>)  per round: Start on a control connection, then n connections send the SAME
 //!        canonical step under that one client id at the same moment (barrier), for Test01..Test10;
 //!        Test11 once; then End raced as well
+//!   (many <n> <conns>)  n clients call Start (over <conns> connections, client i on connection i mod conns),
+//!        then all of them go through the canonical sequence in lock step: round k = every client's
+//!        step k, client 0 first.  All n clients are between Start and End at the same time.
 //!   (conc <n>)         n threads, each a canonical client on its own connection, all at once
 //!   (realclient <n>)   n processes `varlink-certification --client` against the server, all at once
 //!
@@ -21,6 +24,9 @@
 //!   cert:       (obs (r <closed t|f> <reply>*)*)   reply = (rep <continues> <error> <params>)
 //!   race:       (obs (x <k> (round (step <pos> <r>*)*))*)   the outcomes of one race sorted (who wins is
 //!               not observable), equal consecutive rounds run-length encoded, the id printed as "@cid0"
+//!   many:       (obs (step <pos> (<count> <first client index> <r>)*)*)   pos 0 = Start; per step the distinct
+//!               outcomes (the client's own id printed as "@cid"), how many clients got each, and the first
+//!               client that got it, ordered by that index
 //!   conc:       (obs (client (r ...)*)*)           in thread order, thread c's id printed as "@cidc"
 //!   realclient: (obs (exit <code>)*)
 //! The text of an InvalidParameter reply produced from a serde error is printed as "*".
@@ -1126,6 +1132,15 @@ impl Suite for CertSuite {
             });
         }
 
+        // K. many clients in flight at once: the table has no capacity, nobody is dropped before End
+        let many: &[usize] = if ctx.thorough { &[1023, 1024, 1025, 1100, 3000] } else { &[1025, 3000] };
+        for n in many {
+            out.push(Case {
+                input: sx::tagged("many", vec![sx::nat(*n), sx::nat(8)]),
+                tags: vec!["many-clients-in-flight".into(), format!("clients:{}", n)],
+            });
+        }
+
         // H. really concurrent clients
         let ns: &[usize] = if ctx.thorough { &[1, 2, 3, 4, 6, 8, 12, 16, 16, 16] } else { &[1, 2, 4, 8, 16] };
         for n in ns {
@@ -1270,6 +1285,48 @@ impl Suite for CertSuite {
                     i = j;
                 }
                 sx::tagged("obs", out)
+            }
+            "many" => {
+                let n = l[1].as_usize().expect("n");
+                let nconn = l[2].as_usize().expect("conns").max(1);
+                let path = server_path();
+                let mut conns: Vec<Conn> = (0..nconn).map(|_| connect(&path).expect("connection")).collect();
+                let mut ids: Vec<Option<String>> = vec![None; n];
+                let mut steps = vec![];
+                for pos in 0..STEPS.len() {
+                    // distinct outcomes of this step: (rendered, count, first index, sx)
+                    let mut groups: Vec<(String, usize, usize, Sx)> = vec![];
+                    for c in 0..n {
+                        let cid = ids[c].clone().unwrap_or_else(|| "@unstarted".into());
+                        let text = serde_json::to_string(&canon_request(pos, &cid)).unwrap();
+                        let (replies, end) = exchange(&mut conns[c % nconn], text.as_bytes(), pos);
+                        if pos == 0 {
+                            ids[c] = new_id_of(&replies);
+                        }
+                        let own: Vec<String> = ids[c].iter().cloned().collect();
+                        let mut r = vec![match end {
+                            End::Open => sx::atom("f"),
+                            End::Closed => sx::atom("t"),
+                            End::Timeout => sx::atom("timeout"),
+                        }];
+                        r.extend(replies.iter().map(|v| reply_sx(v, &[], &own.iter().map(|i| (i.clone(), "@cid".to_string())).collect::<Vec<_>>())));
+                        let o = sx::tagged("r", r);
+                        let key = o.render();
+                        match groups.iter_mut().find(|g| g.0 == key) {
+                            Some(g) => g.1 += 1,
+                            None => groups.push((key, 1, c, o)),
+                        }
+                        if !matches!(end, End::Open) {
+                            if let Some(nc) = connect(&path) {
+                                conns[c % nconn] = nc;
+                            }
+                        }
+                    }
+                    let mut st = vec![sx::atom("step"), sx::nat(pos)];
+                    st.extend(groups.into_iter().map(|(_, cnt, first, o)| sx::list(vec![sx::nat(cnt), sx::nat(first), o])));
+                    steps.push(sx::list(st));
+                }
+                sx::tagged("obs", steps)
             }
             "realclient" => {
                 let n = l[1].as_usize().expect("n");
